@@ -1,7 +1,7 @@
 (* Extract.v -- extraction of the executable model to OCaml (ExtrOcamlBasic only: bool, option,
    unit, list, prod, sumbool, sumor are mapped to OCaml's; N / positive / nat stay inductive). *)
 From Coq Require Import Extraction ExtrOcamlBasic.
-From WaxModel Require Import Base Token Parse Regex Encode Variance Fold Rule Query Glob.
+From WaxModel Require Import Base Token Parse Regex Spec Encode Variance Fold Rule Query Glob.
 
 Extraction Language OCaml.
 
@@ -10,6 +10,7 @@ Separate Extraction
   Token.tspan Token.concatenation Token.tok_is_empty Token.tsize
   Parse.parse
   Regex.print Regex.print_program Regex.m Regex.ngroups Regex.get_cap Regex.re_size
+  Spec.spec_match Spec.trees_stable Spec.rooted_first_tree Spec.fnull Spec.has_reversed_range
   Encode.encode Encode.enc_tok Encode.rep_in_limits Encode.re_nest
   Fold.depth_variance Fold.size_variance Fold.text_variance Fold.has_root Fold.is_exhaustive
   Variance.text_to_string
